@@ -301,7 +301,15 @@ func (f *Frame) contractCall(st *State, spec *FuncSpec, callee *ssa.Function, ar
 	var results []Val
 	res := callee.Signature.Results()
 	for i := 0; i < res.Len(); i++ {
-		v := vc.freshVal("res_"+sanitize(cname), res.At(i).Type())
+		var v Val
+		if spec.Pure {
+			// pure: the result is a function of the arguments (for the
+			// duration of one activation of the root function, whose FRAME
+			// obligations show that pre-existing objects do not change)
+			v = ufResult(f, fmt.Sprintf("pure|%s|%d", fnDisplayName(callee), i), args, res.At(i).Type())
+		} else {
+			v = vc.freshVal("res_"+sanitize(cname), res.At(i).Type())
+		}
 		f.assumeWF(st, v)
 		results = append(results, v)
 	}
